@@ -3,7 +3,8 @@
    Values are serde trees (lib/Serde.v); `has_shape (shape_of_kind k) v` says v is a value of the
    Rust type stored under kind k, `wf v` that its numbers/lengths are in range. *)
 From Coq Require Import List NArith Bool.
-From V Require Import lib.Strs lib.Serde lib.Msgpack gen.Consts model.Quote model.Header proofs.Msgpack proofs.MsgpackExt proofs.Header.
+From V Require Import lib.Strs lib.Serde lib.Msgpack lib.Cbor gen.Consts model.Quote model.Header model.Messages
+  proofs.Msgpack proofs.MsgpackExt proofs.Header proofs.Cbor proofs.Messages.
 Import ListNotations.
 Open Scope N_scope.
 
@@ -85,3 +86,44 @@ Theorem mp_encoding_prefix_free : forall s v1 v2 r1 r2,
   has_shape s v1 = true -> wf v1 = true -> has_shape s v2 = true -> wf v2 = true ->
   mp_encode v1 ++ r1 = mp_encode v2 ++ r2 -> v1 = v2 /\ r1 = r2.
 Proof. exact mp_encode_prefix_free. Qed.
+
+(* ---- request / response messages through the CBOR codec ---- *)
+
+(* every value of the Request and of the Response type decodes back to itself from its CBOR
+   encoding, whatever follows it *)
+Theorem message_roundtrip : forall s v r,
+  In s [c_request; c_response] -> conforms s v = true -> cwf v = true ->
+  cbor_decode_as s (cbor_encode v ++ r) = Some (v, r).
+Proof. exact message_roundtrip_lemma. Qed.
+
+(* the generic statement it instantiates, and prefix-freedom *)
+Theorem cbor_roundtrip_generic : forall s v r,
+  conforms s v = true -> cwf v = true -> cbor_decode_as s (cbor_encode v ++ r) = Some (v, r).
+Proof. exact cbor_roundtrip. Qed.
+
+Theorem cbor_encoding_prefix_free : forall s v1 v2 r1 r2,
+  conforms s v1 = true -> cwf v1 = true -> conforms s v2 = true -> cwf v2 = true ->
+  cbor_encode v1 ++ r1 = cbor_encode v2 ++ r2 -> v1 = v2 /\ r1 = r2.
+Proof. exact cbor_encode_prefix_free. Qed.
+
+(* variant names and field names are part of the wire format: the names in the model's message
+   shapes are the ones declared in the source (tables regenerated on every run) *)
+Theorem message_name_tables :
+  same_names (variant_table c_request) Consts.msg_variants_request = true /\
+  same_names (variant_table c_response) Consts.msg_variants_response = true /\
+  same_names (variant_table c_cmd) Consts.msg_variants_cmd = true /\
+  same_names (variant_table c_query) Consts.msg_variants_query = true /\
+  same_names (variant_table c_cmd_response) Consts.msg_variants_cmd_response = true /\
+  same_names (variant_table c_query_response) Consts.msg_variants_query_response = true /\
+  same_names (variant_table c_network_address) Consts.msg_variants_network_address = true /\
+  same_names (variant_table c_record_type) Consts.msg_variants_record_type = true /\
+  same_names (variant_table c_error) Consts.msg_variants_error = true /\
+  field_table c_cmd = Consts.msg_fields_cmd /\
+  field_table c_query = Consts.msg_fields_query /\
+  field_table c_query_response = Consts.msg_fields_query_response /\
+  field_table c_error = error_fields_from Consts.msg_fields_register_address Consts.msg_fields_error /\
+  field_table c_register_address = Consts.msg_fields_register_address /\
+  field_table c_scratchpad_address = Consts.msg_fields_scratchpad_address /\
+  field_table c_quote = Consts.msg_fields_payment_quote /\
+  field_table c_metrics = Consts.msg_fields_quoting_metrics.
+Proof. exact message_name_tables_lemma. Qed.
